@@ -174,6 +174,27 @@ func main() {
 //	<model> guard-crash <crash|oom|hang> index=<i> why=<first fatal line>
 //
 // and the run continues after it. After 4 such cases the run stops.
+// heartbeat prints a comment line every 20 s until the returned function is called; for phases of a
+// generator that run none of the code under test (the guard's no-output limit is about that code).
+func heartbeat(what string) func() {
+	stop := make(chan struct{})
+	done := make(chan struct{})
+	go func() {
+		defer close(done)
+		t := time.NewTicker(20 * time.Second)
+		defer t.Stop()
+		for {
+			select {
+			case <-stop:
+				return
+			case <-t.C:
+				os.Stdout.WriteString("# " + what + "\n")
+			}
+		}
+	}()
+	return func() { close(stop); <-done }
+}
+
 func guardParent(only int) {
 	stall := 150 * time.Second
 	model := strings.ToLower(os.Args[1])
@@ -210,6 +231,9 @@ func guardParent(only int) {
 			case l, ok := <-lines:
 				if !ok {
 					break loop
+				}
+				if strings.HasPrefix(l, "#") {
+					continue // a heartbeat of a phase that runs no code under test
 				}
 				w.WriteString(l)
 				w.WriteByte('\n')
